@@ -1161,7 +1161,9 @@ func nanOrFiniteLogQuotient(v ssa.Value) string {
 	if len(callee.Params) != 2 {
 		return ""
 	}
-	guards := map[string]bool{}
+	// which parameter is the number (excluded when <= 0) and which the base (excluded
+	// when <= 1), in either order
+	var num, base ssa.Value
 	for _, b := range callee.Blocks {
 		ifi, ok := b.Instrs[len(b.Instrs)-1].(*ssa.If)
 		if !ok {
@@ -1173,15 +1175,17 @@ func nanOrFiniteLogQuotient(v ssa.Value) string {
 				continue
 			}
 			f, _ := constant.Float64Val(constant.ToFloat(k.Value))
-			if cmp.X == ssa.Value(callee.Params[0]) && f == 0 {
-				guards["a<=0"] = true
-			}
-			if cmp.X == ssa.Value(callee.Params[1]) && f == 1 {
-				guards["b<=1"] = true
+			for _, prm := range callee.Params {
+				if cmp.X == ssa.Value(prm) && f == 0 {
+					num = prm
+				}
+				if cmp.X == ssa.Value(prm) && f == 1 {
+					base = prm
+				}
 			}
 		}
 	}
-	if !guards["a<=0"] || !guards["b<=1"] {
+	if num == nil || base == nil || num == base {
 		return ""
 	}
 	for _, b := range callee.Blocks {
@@ -1200,7 +1204,7 @@ func nanOrFiniteLogQuotient(v ssa.Value) string {
 			}
 			for i, o := range []ssa.Value{x.X, x.Y} {
 				lc, ok := o.(*ssa.Call)
-				if !ok || lc.Common().StaticCallee() == nil || lc.Common().StaticCallee().RelString(nil) != "math.Log" || lc.Common().Args[0] != ssa.Value(callee.Params[i]) {
+				if !ok || lc.Common().StaticCallee() == nil || lc.Common().StaticCallee().RelString(nil) != "math.Log" || lc.Common().Args[0] != []ssa.Value{num, base}[i] {
 					return ""
 				}
 			}
@@ -1658,11 +1662,20 @@ func mustRe(s string) strMatcher { return regexpMustCompile(s) }
 
 // quantityUnitUnchecked: system.newQuantity returns a nil error on every path.
 func quantityUnitUnchecked(p *Program) bool {
-	fn, err := p.Func("fhirpath/system", "newQuantity")
+	// ParseQuantity(number, unit) with the number accepted (the decimal parser answers
+	// success) and an arbitrary unit: no return may carry an error
+	fn, err := p.Func("fhirpath/system", "ParseQuantity")
 	if err != nil {
 		return false
 	}
-	res := newAnalyzer().analyze(fn, nil)
+	an := newAnalyzer()
+	an.fnModel = func(sc *ssa.Function, args []aval) (aval, bool) {
+		if sc.RelString(nil) == "github.com/shopspring/decimal.NewFromString" {
+			return aval{k: kTuple, tup: []aval{top, {k: kNil}}}, true
+		}
+		return aval{}, false
+	}
+	res := an.analyze(fn, nil)
 	if len(res.rets) == 0 || len(res.hazards) > 0 {
 		return false
 	}
